@@ -135,8 +135,8 @@ pub fn prayer_times_dt_rng_block(
     #[cfg(ipt_verif)]
     #[allow(unused_imports)]
     use ipt_verif_rt::{
-        atomic, channel, mpsc, sync_channel, thread, Arc, AtomicBool, AtomicI32, AtomicI64,
-        AtomicIsize, AtomicU32, AtomicU64, AtomicUsize, Barrier, Condvar, Mutex, RwLock,
+        atomic, channel, mpsc, sync_channel, thread, time, Arc, AtomicBool, AtomicI32, AtomicI64,
+        AtomicIsize, AtomicU32, AtomicU64, AtomicUsize, Barrier, Condvar, Instant, Mutex, RwLock,
     };
     // Determine parallelism.
     let avail_pll = if let Ok(count) = thread::available_parallelism() {
